@@ -97,6 +97,16 @@ class C09(Oracle):
         if st is None:
             if rews:
                 ctx.fail("C09", "foreign-reward", "reward delivered to a learner after the schedule")
+            # the scores stay the means of exactly the validation rewards: rounds left over after the last phase change nothing
+            g = ctx.algo if ctx.algo_name == "GPO" else _attr(ctx.algo, "algorithm")
+            vr = getattr(g, "V_reward", None)
+            if vr is not None and len(self.val) == self.N and len(vr) == self.N:
+                for ph, ent in self.val.items():
+                    if len(ent[1]) == self.L:
+                        m = math.fsum(ent[1]) / len(ent[1])
+                        if not close(float(vr[ph]), m, scale=max(abs(x) for x in ent[1])):
+                            ctx.fail("C09", "score", "after the schedule (round %d) the score of phase %d is %s, the mean of exactly its %d "
+                                     "validation rewards is %s" % (i, ph + 1, fhex(vr[ph]), self.L, fhex(m)))
             return
         ph, off, exploring = st
         if exploring:
